@@ -1,6 +1,7 @@
 SPECIFICATION Spec
 INVARIANT OnePerEntryInOrder
 INVARIANT Layout
+INVARIANT KeyNamesDefinition
 INVARIANT ExistingKept
 PROPERTY RefusesExisting
 CHECK_DEADLOCK FALSE
